@@ -175,6 +175,10 @@ class FileIndex:
                     self.tuples[name] = (gens, split_commas(inner))
                     i = c + 1
                     continue
+                if t[j] == ("op", ";"):
+                    self.records[name] = {}             # unit struct
+                    i = j + 1
+                    continue
                 if t[j] == ("op", "{"):
                     c = match_close(t, j)
                     fields, p = {}, j + 1
